@@ -10,6 +10,7 @@
 import Nq.Lemmas.SchedSqrt
 import Nq.Lemmas.SchedDaemon
 import Nq.Lemmas.SchedHist
+import Nq.Lemmas.SchedSleep
 
 namespace Nq.Props.C15
 open Nq Nq.Sched Nq.Spec.Sched Nq.Lemmas.Sched
@@ -751,5 +752,108 @@ example : nextretryOk 1759000000 1758000000 .rem = true ∧
     nextretryOk 9223372036854775757 9223372036854775757 .loc = false ∧
     nextretry 9223372036854775757 9223372036854775757 .loc = 9223372036854775857 ∧
     nextretryW 9223372036854775757 9223372036854775757 .loc = -9223372036854775759 := by decide
+
+/-! ### Promptness of the sleep: "is retried promptly once that time has passed"
+
+`pass_dochan` starts a due message whenever it runs (`C15_order_prompt`, `C15_hist_prompt`); it runs once per iteration of
+main()'s loop, and between two iterations the daemon sleeps in `select()` with the timeout computed by the select preparation
+(`Nq.SelPrep.timeout`: `wakeup = recent + SLEEP_FOREVER`, pass_selprep, todo_selprep, cleanup_selprep,
+`tv.tv_sec = wakeup <= recent ? 0 : wakeup - recent + SLEEP_FUZZ`; the model belongs to C16 and is compared with the real
+daemon at every select there and in the `W` scenarios of this check).  The theorems below say that this sleep never carries
+the daemon past the due time of an entry it could start, by more than SLEEP_FUZZ — whatever the rest of the daemon is doing:
+in particular while another channel is in the middle of a pass with every delivery slot taken. -/
+
+open Nq.Lemmas.SchedSleep in
+/-- **The sleep is prompt.**  For every snapshot of the daemon's globals (clock at or after the epoch) and every startable
+due time `d` (head of the heap of a channel that is not mid-pass, with a job slot free; head of pqfail; head of pqdone; no exit
+requested): if `d` has been reached the timeout is 0, otherwise it is at most `d - recent + SLEEP_FUZZ`.  No hypothesis on
+the other channel: it may be mid-pass and saturated, have writes pending, or its spawner may be dead. -/
+theorem C15_sleep_prompt (s : Nq.SelPrep.Snap) (h0 : 0 ≤ s.recent) (d : Int) (hd : d ∈ startableDues s) :
+    (d ≤ s.recent → Nq.SelPrep.timeout s = 0) ∧
+    (s.recent < d → Nq.SelPrep.timeout s ≤ d - s.recent + Nq.SelPrep.SLEEP_FUZZ) := by
+  obtain ⟨a, b, _⟩ := timeout_prompt s h0 d hd
+  exact ⟨a, b⟩
+
+open Nq.Lemmas.SchedSleep in
+/-- the oracle of the select-loop scenarios is the negation of this theorem's conclusion: a `select()` that returns no later
+than `recent + timeout` (it may return earlier: a descriptor became ready, a signal) never "sleeps through a due time". -/
+theorem C15_sleep_not_through (s : Nq.SelPrep.Snap) (h0 : 0 ≤ s.recent) (tafter : Int)
+    (hret : tafter ≤ s.recent + Nq.SelPrep.timeout s) : sleptThrough s tafter = false := by
+  unfold sleptThrough
+  rw [List.any_eq_false]
+  intro d hd
+  obtain ⟨a, b, _⟩ := timeout_prompt s h0 d hd
+  simp only [Bool.and_eq_true, decide_eq_true_eq, not_and]
+  intro h1
+  by_cases hds : d ≤ s.recent
+  · rw [a hds] at hret; omega
+  · have := b (by omega); omega
+
+open Nq.Lemmas.SchedSleep in
+/-- **History level**: in a well-formed daemon state, for EVERY message scheduled on a channel that is not in the middle of a
+pass (not only the head of the heap) the daemon does not sleep past its due time by more than SLEEP_FUZZ, and does not sleep
+at all once it is due — whatever the other channel, pqfail, the todo and cleanup timers look like.  Together with
+`C15_hist_prompt` (the pass that then runs starts an entry due no later) and `C15_hist_no_starvation`. -/
+theorem C15_sleep_hist (s : HSt) (sn : Nq.SelPrep.Snap) (hwf : WF s) (hs : SnapOf s sn) (h0 : 0 ≤ s.clock)
+    (c : Chan) (hc : midPass sn c = false) (e : Elt) (he : e ∈ (s.q c).toList) :
+    (e.dt ≤ s.clock → Nq.SelPrep.timeout sn = 0) ∧
+    (s.clock < e.dt → Nq.SelPrep.timeout sn ≤ e.dt - s.clock + Nq.SelPrep.SLEEP_FUZZ) := by
+  obtain ⟨m, hm, hle⟩ := min_dt_le (s.q c) (hwf.heap c) e he
+  obtain ⟨c0, c1, hch, h0m, h1m⟩ := hs.chans
+  have hmem : m ∈ startableDues sn := by
+    rw [mem_startableDues]
+    refine ⟨hs.running, Or.inl ⟨hs.job, ?_⟩⟩
+    cases c with
+    | loc =>
+      refine ⟨c0, by simp [hch], ?_, by rw [h0m]; exact hm⟩
+      simpa [midPass, hch] using hc
+    | rem =>
+      refine ⟨c1, by simp [hch], ?_, by rw [h1m]; exact hm⟩
+      simpa [midPass, hch] using hc
+  have h0' : 0 ≤ sn.recent := by rw [hs.recent]; exact h0
+  obtain ⟨ha, hb, _⟩ := timeout_prompt sn h0' m hmem
+  rw [hs.recent] at ha hb
+  have hfz := Nq.SelPrep.fuzz_nonneg
+  constructor
+  · intro h; exact ha (by omega)
+  · intro h
+    by_cases hmc : m ≤ s.clock
+    · rw [ha hmc]; omega
+    · have := hb (by omega); omega
+
+open Nq.Lemmas.SchedSleep in
+/-- the same for a finished message waiting in pqdone (e.g. after a failed bounce injection: `now + SLEEP_SYSFAIL`) -/
+theorem C15_sleep_hist_done (s : HSt) (sn : Nq.SelPrep.Snap) (hwf : WF s) (hs : SnapOf s sn) (h0 : 0 ≤ s.clock)
+    (e : Elt) (he : e ∈ s.done.toList) :
+    (e.dt ≤ s.clock → Nq.SelPrep.timeout sn = 0) ∧
+    (s.clock < e.dt → Nq.SelPrep.timeout sn ≤ e.dt - s.clock + Nq.SelPrep.SLEEP_FUZZ) := by
+  obtain ⟨m, hm, hle⟩ := min_dt_le s.done hwf.heapDone e he
+  have hmem : m ∈ startableDues sn := by
+    rw [mem_startableDues]
+    exact ⟨hs.running, Or.inr (Or.inr (by rw [hs.done]; exact hm))⟩
+  have h0' : 0 ≤ sn.recent := by rw [hs.recent]; exact h0
+  obtain ⟨ha, hb, _⟩ := timeout_prompt sn h0' m hmem
+  rw [hs.recent] at ha hb
+  have hfz := Nq.SelPrep.fuzz_nonneg
+  constructor
+  · intro h; exact ha (by omega)
+  · intro h
+    by_cases hmc : m ≤ s.clock
+    · rw [ha hmc]; omega
+    · have := hb (by omega); omega
+
+/-- non-vacuity, and the excluded case.  Local channel mid-pass with its only slot taken, remote message due at +400, todo
+rescan at +1500: the daemon sleeps 401 s; returning at +401 is prompt, returning at +1000 (what a select preparation that
+gives up as soon as any channel is mid-pass would do) is "slept through".  Complement: the head of the heap of the channel
+that IS mid-pass is not startable and does not shorten the sleep. -/
+def exSnap : Nq.SelPrep.Snap :=
+  { recent := 1000000000, chans := [{ used := 1, conc := 1, passOpen := true }, { conc := 2, pqMin := some 1000000400 }],
+    jobRefs := [1, 0, 0], nexttodorun := 1000001500, cleanuptime := 1000076431 }
+example : startableDues exSnap = [1000000400] ∧ Nq.SelPrep.timeout exSnap = 401 ∧
+    sleptThrough exSnap 1000000401 = false ∧ sleptThrough exSnap 1000001000 = true := by decide
+example : let s : Nq.SelPrep.Snap := { exSnap with chans := [{ used := 1, conc := 1, passOpen := true, pqMin := some 1000000100 }, { conc := 2 }] }
+    startableDues s = [] ∧ Nq.SelPrep.timeout s = 1501 := by decide
+example : SnapOf { clock := 1000000000, q1 := #[⟨1000000400, 9⟩] } exSnap ∧ midPass exSnap .rem = false ∧ midPass exSnap .loc = true :=
+  ⟨⟨rfl, rfl, by decide, ⟨_, _, rfl, by decide, by decide⟩, by decide⟩, by decide, by decide⟩
 
 end Nq.Props.C15
